@@ -34,21 +34,29 @@ func c16Body(k int, pop *Population, priv *Genome, opts *neat.Options, inn Innov
 	return func() { _, _ = priv.mutateAddLink(pop, 1, opts) }
 }
 
-func vc16(bodies int, prefill int) {
+func vc16(bodiesA, bodiesB []int, prefill int, cfg tmplCfg) {
 	pop := newPopulation()
 	pop.nextInnovNum, pop.nextNodeId = 100, 20
 	for i := 0; i < prefill; i++ {
 		pop.innovations = append(pop.innovations, *NewInnovationForLink(1, 3, int64(50+i), 0.5, 0))
 	}
 	opts := tOpts()
-	ga := tGenome("ga", 1, cfgSensors)
-	gb := tGenome("gb", 2, cfgSensors)
-	ka, kb := vChoice("thread A", bodies), vChoice("thread B", bodies)
+	ga := tGenome("ga", 1, cfg)
+	gb := tGenome("gb", 2, cfg)
+	ka, kb := bodiesA[vChoice("thread A", len(bodiesA))], bodiesB[vChoice("thread B", len(bodiesB))]
 	a := c16Body(ka, pop, ga, opts, *NewInnovationForLink(1, 4, 60, 0.5, 0))
 	b := c16Body(kb, pop, gb, opts, *NewInnovationForNode(1, 3, 61, 62, 9, 1))
 	vPar(pop, a, b)
 	vReach("end")
 }
 
-func VC16_Api_Quick()         { vc16(4, vChoice("prefilled record entries", 3)) }
-func VC16_Mutators_Thorough() { vc16(7, vChoice("prefilled record entries", 2)) }
+var c16Tiny = tmplCfg{outputs: 1, hidden: 1, genes: 2, traits: 1, params: 1, fixedBase: true, biasFree: true}
+
+func VC16_Api_Quick() {
+	vc16([]int{0, 1, 2, 3}, []int{0, 1, 2, 3}, vChoice("prefilled record entries", 3), c16Tiny)
+}
+
+// a whole structural mutation on a thread-private genome against each API operation of the other thread
+func VC16_Mutators_Thorough() {
+	vc16([]int{4, 5, 6}, []int{0, 1, 2, 3, 4}, vChoice("prefilled record entries", 2), c16Tiny)
+}
